@@ -522,6 +522,24 @@ func c18Complete(c *fw.Ctx) *fw.Outcome {
 				return &o
 			}
 			c.Count("complete_documents_checked", 1)
+			// and the way back through the file-level helpers: a document of several megabytes is read whole
+			if n == 65537 {
+				ext := map[string]string{"srt": "srt", "ssa": "ass", "stl": "stl", "ttml": "ttml", "webvtt": "vtt"}[w.name]
+				path := filepath.Join(c.TmpDir(), "big."+ext)
+				os.WriteFile(path, b.Bytes(), 0o644)
+				var back *astisub.Subtitles
+				p := guard(func() { back, err = astisub.OpenFile(path) })
+				os.Remove(path)
+				if p != "" || err != nil || back == nil || len(back.Items) != n {
+					got := -1
+					if back != nil {
+						got = len(back.Items)
+					}
+					o := fw.Bad(uint64(n)+7, nil, "OpenFile on a %s document of %d cues (%d bytes) returns %d cues (err=%v %s): a long document is not read whole", w.name, n, b.Len(), got, err, p)
+					return &o
+				}
+				c.Count("long_documents_read_back", 1)
+			}
 		}
 	}
 	return nil
